@@ -51,8 +51,15 @@ Record ev := { e_name : name; e_roots : list name; e_pay : nat }.
 (* c_roots: custom type names mentioned by parameters, return type and channel
    message types; c_params: at least one ordinary parameter; c_chans: at least
    one Channel parameter *)
-Record cmd := { c_name : name; c_roots : list name; c_params : bool; c_chans : bool }.
-Record tdef := { t_name : name; t_deps : list name; t_body : nat; t_enum : bool }.
+(* c_pnames: the ordinary parameters (Tauri-injected ones removed), c_cnames: the Channel parameters, in
+   signature order *)
+Record cmd := { c_name : name; c_roots : list name; c_pnames : list name; c_cnames : list name }.
+Definition nonempty {A} (l : list A) : bool := match l with [] => false | _ => true end.
+Definition c_params (c : cmd) : bool := nonempty (c_pnames c).
+Definition c_chans (c : cmd) : bool := nonempty (c_cnames c).
+(* t_fields: field names of a struct / variant names of an enum in declaration order; t_body: the rest of
+   the definition (field types, attributes) as an opaque id *)
+Record tdef := { t_name : name; t_deps : list name; t_body : nat; t_enum : bool; t_fields : list name }.
 Inductive item :=
 | ICmd (c : cmd) (evs : list ev)     (* #[tauri::command] fn, with the emit calls of its body *)
 | IFn (evs : list ev)                (* any other fn (emit calls are harvested from every fn) *)
@@ -119,24 +126,25 @@ Definition zod_order (w : omega) (idx : list tdef) (p : project) : list name :=
 
 (* ---------- declarations ---------- *)
 Inductive decl :=
-| DType (n : name) (body : nat)      (* plain: export interface / export type *)
-| DSchema (n : name) (body : nat)    (* zod: export const <n>Schema *)
+| DType (n : name) (body : nat) (fields : list name)     (* plain: export interface / export type, members in order *)
+| DSchema (n : name) (body : nat) (fields : list name)   (* zod: export const <n>Schema *)
 | DInfer (n : name)                  (* zod: export type <n> = z.infer<..> *)
-| DParams (c : name)                 (* <Cmd>Params interface or alias *)
-| DPSchema (c : name)                (* zod: <Cmd>ParamsSchema *)
+| DParams (c : name) (ps cs : list name)   (* <Cmd>Params interface or alias: parameters, then channels *)
+| DPSchema (c : name) (ps : list name)     (* zod: <Cmd>ParamsSchema *)
 | DHooks                             (* zod: CommandHooks *)
 | DWrapper (c : name)
 | DListener (e : name) (pay : nat)    (* listener for event e with payload type pay *)
 | DReexport (k : nat).               (* index.ts: 0 types, 1 commands, 2 events *)
 
 Definition type_decls_plain (idx : list tdef) (ns : list name) : list decl :=
-  flat_map (fun n => match lookup idx n with Some d => [DType n (t_body d)] | None => [] end) ns.
+  flat_map (fun n => match lookup idx n with Some d => [DType n (t_body d) (t_fields d)] | None => [] end) ns.
 Definition type_decls_zod (idx : list tdef) (ns : list name) : list decl :=
   flat_map (fun n => match lookup idx n with
-                     | Some d => [DSchema n (t_body d); DInfer n]
+                     | Some d => [DSchema n (t_body d) (t_fields d); DInfer n]
                      | None => [] end) ns.
-Definition param_decl (c : cmd) : list decl := if c_params c || c_chans c then [DParams (c_name c)] else [].
-Definition pschema_decl (c : cmd) : list decl := if c_params c then [DPSchema (c_name c)] else [].
+Definition param_decl (c : cmd) : list decl :=
+  if c_params c || c_chans c then [DParams (c_name c) (c_pnames c) (c_cnames c)] else [].
+Definition pschema_decl (c : cmd) : list decl := if c_params c then [DPSchema (c_name c) (c_pnames c)] else [].
 
 Record output := { o_types : list decl; o_commands : list decl; o_events : option (list decl); o_index : list decl }.
 
@@ -173,13 +181,26 @@ Definition decls (o : output) : list decl :=
 Record vizout := { v_cmds : list name;                       (* command entry points, both files *)
                    v_types : list (name * list name);        (* txt: discovered types with their depends-on lists *)
                    v_nodes : list name;                      (* dot: type nodes *)
-                   v_edges : list (name * name) }.           (* dot: type -> dependency edges *)
+                   v_edges : list (name * name);             (* dot: type -> dependency edges *)
+                   v_chains : list (nat * name) }.           (* txt: dependency chains, (indentation, name) per line *)
+(* show_dependency_chain: the node, then (only discovered types have an entry in dependencies) each
+   dependency one level deeper while the indentation is below 3 *)
+Fixpoint chain (fuel : nat) (w : omega) (idx : list tdef) (ds : list name) (n : name) (indent : nat) : list (nat * name) :=
+  match fuel with
+  | 0 => []
+  | S f => (indent, n) ::
+           (if memb n ds
+            then flat_map (fun d => if Nat.ltb indent 3 then chain f w idx ds d (S indent) else [])
+                          (dep_order w n (succs idx n))
+            else [])
+  end.
 Definition viz_raw (w : omega) (p : project) : vizout :=
   let idx := index w p in let ds := discovered idx p in
   {| v_cmds := map c_name (commands w p);
      v_types := map (fun n => (n, dep_order w n (succs idx n))) (order_by ident (w_res w) ds);
      v_nodes := order_by ident (w_res w) ds;
-     v_edges := flat_map (fun n => map (fun d => (n, d)) (dep_order w n (succs idx n))) (order_by ident (w_dmap w) ds) |}.
+     v_edges := flat_map (fun n => map (fun d => (n, d)) (dep_order w n (succs idx n))) (order_by ident (w_dmap w) ds);
+     v_chains := flat_map (fun n => chain 5 w idx ds n 0) (order_by ident (w_res w) ds) |}.
 
 (* ---------- the repair: sort what was discovered before generating ---------- *)
 (* The repaired pipeline still receives every collection in its hash order, and sorts it by name
@@ -196,6 +217,15 @@ Definition repaired (w : omega) (p : project) : omega :=
 (* the code as patched: hash orders w arrive, sorted orders are used *)
 Definition gen (zod : bool) (w : omega) (p : project) : option output := gen_raw zod (repaired w p) p.
 Definition viz (w : omega) (p : project) : vizout := viz_raw (repaired w p) p.
+
+(* run_generate as a whole: --verbose only prints; with --visualize-deps the two graph files are written
+   after the bindings (bin/cargo-tauri-typegen.rs:263); nothing at all is written without a command *)
+Record flags := { f_verbose : bool; f_visualize : bool }.
+Definition run_files (fl : flags) (zod : bool) (w : omega) (p : project) : option (output * option vizout) :=
+  match gen zod w p with
+  | None => None
+  | Some o => Some (o, if f_visualize fl then Some (viz w p) else None)
+  end.
 
 (* ---------- known classes (boolean, shared by theorems and the run-time matcher) ---------- *)
 Fixpoint has_dup (l : list name) : bool :=
